@@ -233,6 +233,7 @@ package main
 //@ spec func retOK(v vm.Value, t ast.Type) bool
 //@ func createCompiledRouteHandler$1
 //@   assertat "return writeEncodedJSON(ctx, http.StatusOK," route.ReturnType != nil ==> retOK(result, route.ReturnType)
+//@   assertat "return writeEncodedJSON(ctx, status," route.ReturnType != nil && status >= 200 && status < 300 ==> retOK(body, route.ReturnType)
 // the check itself: the declared type and the module's type table are what CheckType is given; that "CheckType accepted the
 // decoded JSON form" means "the value is acceptable" (retOK) is a summary, not verified (JSON round trip not modelled)
 //@ func validateCompiledReturn
